@@ -83,6 +83,50 @@ def unit_span_frame(eng):
     return dict(unit=unit, func=func, paths=len(sites), obligations=obs, wall=0.0)
 
 
+def unit_repr(eng):
+    """Context.__repr__ for a text and position of ARBITRARY content and length: file:line:column with line = 1 + line breaks before the
+    position and column = 1 + characters since the line start, a tab counting four (str.count is an uninterpreted function with its range,
+    str.rfind an uninterpreted function with the documented contract; three lemmas pin down that the start it yields IS the start of the
+    position's line)"""
+    from pyvc.engine import strcount, zstr
+
+    def run(eng):
+        eng.I = {}
+        eng.fstring_ints = True
+        ccls = eng.resolve_global(eng.load_module("context"), "Context")
+        code = z3.String("code")
+        pos = int_input(eng, "pos")
+        eng.inputs["code"] = code
+        eng.assume(z3.And(pos >= 0, pos <= z3.Length(code)))
+        c = Obj(ccls, dict(filename="f.mac", code=code, pos=pos), name="ctx")
+        eng.I.update(code=code, pos=pos)
+        return eng.call(eng.getattr(c, "__repr__"), [], {})
+
+    def post(eng, o):
+        code, pos = eng.I["code"], eng.I["pos"]
+        eng.prove("no-exception", o[0] == "return")
+        if o[0] != "return":
+            return
+        nl, tab = z3.StringVal("\n"), z3.StringVal("\t")
+        from pyvc.engine import strrfind
+        before = z3.SubString(code, 0, pos)
+        k = strrfind(code, nl, z3.IntVal(0), pos)
+        start = k + 1
+        line_text = z3.SubString(code, start, pos - start)
+        j = z3.Int("j!line")
+        eng.prove("lemma:line-start-lies-between-0-and-the-position", z3.And(start >= 0, start <= pos))
+        eng.prove("lemma:line-start-is-the-file-start-or-follows-a-line-break", z3.Or(start == 0, z3.SubString(code, start - 1, 1) == nl))
+        eng.prove("lemma:no-line-break-between-the-line-start-and-the-position", z3.ForAll([j], z3.Implies(z3.And(j >= start, j < pos), z3.SubString(code, j, 1) != nl)))
+        line = strcount(before, nl) + 1
+        col = (pos - start) + 3 * strcount(line_text, tab) + 1
+        want = z3.Concat(z3.StringVal("f.mac:"), z3.IntToStr(line), z3.StringVal(":"), z3.IntToStr(col))
+        eng.prove("text-is-file:line:column(line = 1 + line breaks before the position; column = 1 + characters since the line start, a tab counting four)", zstr(o[1]) == want)
+    r = verify(eng, "Context.__repr__", run, post, func="context.Context.__repr__")
+    for o_ in r["obligations"]:
+        o_["cfg"] = dict(kind="repr")
+    return r
+
+
 def unit_bounded_repr(eng, tier="quick"):
     maxlen = 7 if tier == "quick" else 9
     code = r'''
@@ -253,7 +297,7 @@ def unit_text_identity(eng):
 
 
 def units(tier):
-    us = [("text-identity", "unit_text_identity", {}), ("span-frame", "unit_span_frame", {}), ("bounded-repr", "unit_bounded_repr", dict(tier=tier)), ("rac", "unit_rac", dict(tier=tier))]
+    us = [("repr", "unit_repr", {}), ("text-identity", "unit_text_identity", {}), ("span-frame", "unit_span_frame", {}), ("bounded-repr", "unit_bounded_repr", dict(tier=tier)), ("rac", "unit_rac", dict(tier=tier))]
     # the report machinery hands the parts of a diagnostic to the handler unchanged and in order (the culprit is the first part)
     for p in ("error", "critical", "warning"):
         us.append(("emit_report[%s]" % p, "unit_emit_report", dict(prio=p, latched=False)))
@@ -268,6 +312,24 @@ def canary(eng):
 
 
 def replay(o, tree):
+    if (o.get("cfg") or {}).get("kind") == "repr":
+        w = o.get("witness") or {}
+        texts = [("a\tb\nc\t\td", None), ("x", None), ("\n\n\t", None)]
+        if isinstance(w.get("code"), str) and isinstance(w.get("pos"), int):
+            texts.insert(0, (w["code"], w["pos"]))
+        code = "from pdpy11.context import Context\nres = []\nfor t, p in %r:\n    for q in ([p] if p is not None else range(len(t) + 1)):\n        c = Context('f.mac', t); c.pos = q; res.append([t, q, repr(c)])\nresult = res\n" % (texts,)
+        r = driver.native([{"kind": "py", "code": code}], tree)[0]
+        bad = []
+        for t, q, got in (r.get("result") or []):
+            line, col = 1, 1
+            for ch in t[:q]:
+                if ch == "\n":
+                    line, col = line + 1, 1
+                else:
+                    col += 4 if ch == "\t" else 1
+            if got != "f.mac:%d:%d" % (line, col):
+                bad.append((t, q, got, "f.mac:%d:%d" % (line, col)))
+        return dict(jobs=[{"kind": "py", "code": code}], expected="file:line:column with a tab counting four", observed=bad[:4] or "as expected", reproduced=bool(bad))
     old = os.environ.get("PDPY11_SRC")
     os.environ["PDPY11_SRC"] = tree
     try:
